@@ -431,6 +431,59 @@ def _run_task(prop, task, tier, deadline):
 BUDGET_S = {'quick': 420.0, 'thorough': 2700.0}
 
 
+def _task_entry(prop, task, tier, deadline, outfile):
+  """Runs one task in its own process; the result goes through a file so that an abrupt death (an abort inside XLA, the
+  kernel's OOM killer) costs exactly this task."""
+  import pickle
+  _worker_init(True)
+  res = _run_task(prop, task, tier, deadline)
+  with open(outfile + '.tmp', 'wb') as f:
+    pickle.dump(res, f)
+  os.replace(outfile + '.tmp', outfile)
+
+
+def _crashed(task, why):
+  return {'ok': False, 'error': why, 'task': {k: w for k, w in task.items() if k != 'cases'}, 'evaluations': 0, 'programs': 0,
+          'fps': {}, 'labels': {}, 'counters': {}, 'resid': {}, 'samples': [], 'enum': [0, 0, 0], 'violations': [],
+          'known_hits': [], 'notes': [], 'wall_s': 0}
+
+
+def run_tasks_isolated(prop, tasks, tier, deadline, workers):
+  """One spawned process per task, at most `workers` at a time, in task order. A task whose process dies without a
+  result is retried once (alone is not required: it only ever loses itself); a second death is a harness error."""
+  import multiprocessing as mp
+  import pickle
+  ctx = mp.get_context('spawn')
+  outdir = os.path.join(run_dir(), 'results')
+  os.makedirs(outdir, exist_ok=True)
+  results = [None] * len(tasks)
+  queue = [(i, 0) for i in range(len(tasks))]
+  running = {}
+  while queue or running:
+    while queue and len(running) < workers:
+      i, attempt = queue.pop(0)
+      out = os.path.join(outdir, f't{i}_{attempt}.pkl')
+      p_ = ctx.Process(target=_task_entry, args=(prop, tasks[i], tier, deadline, out))
+      p_.start()
+      running[i] = (p_, out, attempt)
+    time.sleep(0.05)
+    for i in list(running):
+      p_, out, attempt = running[i]
+      if p_.is_alive():
+        continue
+      p_.join()
+      del running[i]
+      if os.path.exists(out):
+        with open(out, 'rb') as f:
+          results[i] = pickle.load(f)
+        os.remove(out)
+      elif attempt == 0:
+        queue.append((i, 1))
+      else:
+        results[i] = _crashed(tasks[i], f'worker process died twice without a result (exit code {p_.exitcode})')
+  return results
+
+
 def run_check(prop, tier, seed, workers=None, only_kinds=None):
   t0 = time.time()
   os.makedirs(run_dir(), exist_ok=True)
@@ -461,20 +514,7 @@ def run_check(prop, tier, seed, workers=None, only_kinds=None):
     for t in tasks:
       results.append(_run_task(prop, t, tier, deadline))
   else:
-    import concurrent.futures as cf
-    import multiprocessing as mp
-    ctx = mp.get_context('spawn')
-    with cf.ProcessPoolExecutor(max_workers=workers, mp_context=ctx,
-                                initializer=_worker_init, initargs=(True,)) as ex:
-      futs = [ex.submit(_run_task, prop, t, tier, deadline) for t in tasks]
-      for t, f in zip(tasks, futs):
-        try:
-          results.append(f.result())
-        except Exception as e:  # worker crashed
-          results.append({'ok': False, 'error': f'worker crashed: {type(e).__name__}: {e}',
-                          'task': t, 'evaluations': 0, 'programs': 0, 'fps': {},
-                          'labels': {}, 'counters': {}, 'resid': {}, 'samples': [], 'enum': [0, 0, 0],
-                          'violations': [], 'known_hits': [], 'notes': [], 'wall_s': 0})
+    results = run_tasks_isolated(prop, tasks, tier, deadline, workers)
   return finish(prop, mod, tier, seed, results, time.time() - t0)
 
 
